@@ -169,4 +169,9 @@ RefusalIsFinal == [][at # "rejected"]_vars
 (* the state graph under VIEW view: the path to the source state plus that *)
 (* transition.                                                             *)
 EmitStep == PrintT(ToJson([chan |-> chan, origin |-> origin, hist |-> hist']))
+
+(* Without the VIEW every state is one path; the maximal ones (chain refused or MaxHops      *)
+(* reached) are printed: all behaviours up to MaxHops hops.                                   *)
+EmitPath == (at = "rejected" \/ hops = MaxHops) =>
+                PrintT(ToJson([chan |-> chan, origin |-> origin, hist |-> hist]))
 =============================================================================
